@@ -68,8 +68,13 @@ def default_coords(n, seed=0):
     return np.round(rng.uniform(0.1, 3.0, size=(n, 3)), 3)
 
 
+# atom names of the reference: hydrogens and heavy atoms mixed, hydrogens also at low indices (the frame neighbours must be
+# chosen by index, not by element or name)
+REF_NAMES = ["H1", "C2", "H3", "N4", "O5", "H6", "C7", "H8", "C9"]
+
+
 def ref_molecule(n, edges, seed=0):
-    return build_molecule("REF", [f"C{i + 1}" for i in range(n)], edges, default_coords(n, seed))
+    return build_molecule("REF", [REF_NAMES[i % len(REF_NAMES)] if i < len(REF_NAMES) else f"C{i + 1}" for i in range(n)], edges, default_coords(n, seed))
 
 
 def tgt_molecule(m, seed=1):
